@@ -18,7 +18,7 @@ PROBES = {
     'G': 'GgMm', 'T': 'Tt', 'N': 'Nn', 'E': 'Ee',
     'A': 'ABCDFHIJKLOPQRSUVWXYZabcdfhijklopqrsuvwxyz',
     '5': '0123456789', '.': '.', '+': '+', '-': '-', ' ': ' ', '*': '*', ';': ';', '\\': '\\',
-    '\r': '\r', '\n': '\n', '#': '#@!_=()/:"\t%&\'',
+    '\r': '\r', '\n': '\n', '\t': '\t\x0b\x0c', '#': '#@!_=()/:"%&\'',
 }
 SIGMA = list(PROBES)
 
@@ -251,7 +251,7 @@ def matches_empty_without_end(pattern):
 
 
 def show(classes):
-    rep = {'G': 'G', 'T': 'T', 'N': 'N', 'E': 'E', 'A': 'X', '5': '5', '#': '#', '\r': '\\r', '\n': '\\n'}
+    rep = {'G': 'G', 'T': 'T', 'N': 'N', 'E': 'E', 'A': 'X', '5': '5', '#': '#', '\r': '\\r', '\n': '\\n', '\t': '\\t'}
     return ''.join(rep.get(c, c) for c in classes)
 
 
